@@ -1,9 +1,7 @@
 //! vf-index: checks of the index crates (C10 B-tree, C11 BM25, C12 HNSW).
-mod c10;
-mod c11;
-mod c12;
 
 use vf_core::Runner;
+use vf_index::*;
 
 fn main() {
     let prop = std::env::args().nth(1).unwrap_or_default();
